@@ -484,6 +484,9 @@ def _run_history(sh, fa, zy, rng, scratch, hidx, schemas, repo_dir, repo_root, r
                 continue
             opts = rng.choice([{"strict": True}, {"strict_allow_default": True}, {"disable_tuple_notation": True},
                                {"strict": True, "disable_tuple_notation": True}])
+            if kind == "cwrite_opts" and rng.random() < 0.5:
+                # a codec with its rarely used level option (whatever a level keeps between calls would show in the bytes)
+                opts = {"codec": "deflate", "codec_compression_level": rng.choice([1, 6, 9]), "sync_interval": rng.choice([1, 10**6])}
             victim = rng.choice([full, full, d] + ([bad] if bad is not None else []))
             if kind == "swrite_opts":
                 name, args = "swrite_opts", (sarg, victim, opts)
@@ -517,7 +520,12 @@ def _run_history(sh, fa, zy, rng, scratch, hidx, schemas, repo_dir, repo_root, r
             if st == "ok":
                 name, args = "cread", (raw if rng.random() < 0.8 else raw[: len(raw) - rng.randint(1, 20)], rng.choice([None, None, sarg]))
         elif kind == "validate":
-            name, args = "validate", (bad if bad is not None and rng.random() < 0.5 else d, sarg, rng.random() < 0.3)
+            if rng.random() < 0.5:
+                # data on which the options make a difference: omitted nullable fields, hints, extra keys
+                d2 = DatumGen(rng, size_budget=20, big=0.0, mappings=0.0, omit_nullable=0.4, hints=0.3, extras=0.2).gen(node)
+                if not (RC.float_out_of_range(node, d2) or RC.raw_under_logical(node, d2)):
+                    d = d2
+            name, args = "validate", (bad if bad is not None and rng.random() < 0.3 else d, sarg, rng.random() < 0.3)
         elif kind == "validate_many":
             name, args = "validate_many", ([d] + ([bad] if bad is not None else []), sarg)
         elif kind == "pcf":
